@@ -112,7 +112,7 @@ def snapLine (c : Cfg) (s : State) : String :=
   " rc=" ++ joinNat (r.map (fun i => (s.nd i).retry)) ++
   " dc=" ++ joinNat (r.map (fun i => (s.nd i).doneCnt)) ++
   " fl=" ++ joinNat fl ++
-  " ov=" ++ ovName (overall c s) ++
+  " ov=" ++ ovName (reported c s) ++
   " pp=" ++ (match s.loop with | .launching j => toString j | _ => "") ++
   " ag=" ++ ovName (agentStatus c true s) ++
   " ex=" ++ joinNat (r.map (fun i => (s.nd i).execs)) ++
